@@ -60,7 +60,7 @@ func init() {
 				nOps: 25 + c.Rng.Intn(25), keys: keySetA[:3+c.Rng.Intn(6)], allVersions: true,
 				nkeeps: []int{1, 100}, detect: false, memSize: 1 << 20}
 			if i%2 == 1 {
-				p.managed, p.monotone = true, true
+				p.managed, p.monotone, p.dupVersions = true, true, true
 			}
 			return p
 		})
